@@ -339,6 +339,49 @@ func (v *Verifier) globalObj(st *State, g *ssa.Global) (*Object, bool) {
 		v.assume("package-level ring constant " + g.Pkg.Pkg.Name() + "." + g.Name() + " is a fixed element (only the package initialiser stores to it: checked syntactically); its numeric value is not checked at the ring layer")
 		return o, true
 	}
+	if pt, isPtr := t.Underlying().(*types.Pointer); isPtr && g.Pkg != nil && v.isBig(pt.Elem()) {
+		// package-level *big.Int set once by the package initialiser (var order = fr.Modulus()): a pointer to a
+		// cell holding a fixed integer; when the initialiser is a call of Modulus() of a field package, the integer
+		// is that field's pinned modulus
+		if v.globalWrittenOutsideInit(g) {
+			return nil, false
+		}
+		var val *Term
+		for _, m := range g.Pkg.Members {
+			fn, ok := m.(*ssa.Function)
+			if !ok || fn.Name() != "init" {
+				continue
+			}
+			for _, b := range fn.Blocks {
+				for _, ins := range b.Instrs {
+					s, ok := ins.(*ssa.Store)
+					if !ok || s.Addr != ssa.Value(g) {
+						continue
+					}
+					if call, ok := s.Val.(*ssa.Call); ok {
+						if callee := call.Call.StaticCallee(); callee != nil && callee.Name() == "Modulus" && callee.Pkg != nil {
+							if fp := v.fieldParams(callee.Pkg); fp != nil {
+								val = v.F.Int(fp.Q)
+							}
+						}
+					}
+				}
+			}
+		}
+		if val == nil {
+			val = v.F.Var("glob."+g.Pkg.Pkg.Name()+"."+g.Name(), SInt)
+		}
+		cell := v.newObject(g.Name()+"^", pt.Elem(), true)
+		cell.Global = true
+		o := v.newObject(g.Name(), t, true)
+		o.Global = true
+		v.globals[g] = o
+		v.globalInit[g] = &PtrV{Obj: cell}
+		v.constObjs[cell] = val
+		st.mem[o] = &PtrV{Obj: cell}
+		v.assume("package-level *big.Int " + g.Pkg.Pkg.Name() + "." + g.Name() + " points to a fixed integer (stored to only by the package initialiser: checked syntactically; = the pinned modulus when initialised by Modulus())")
+		return o, true
+	}
 	if st0, isStruct := t.Underlying().(*types.Struct); isStruct && g.Pkg != nil && v.hasAbstractField(st0, 0) {
 		// record of parameters holding ring elements (curveParams): fixed symbolic components
 		if v.globalWrittenOutsideInitLike(g) {
